@@ -47,6 +47,47 @@ def err_propagated(fn, call):
     return False
 
 
+def _waiting_guard_edges(fn):
+    """edges on which `waiting_tx_count == 0` is known while the other edge of the same switch only leads to Err"""
+    out = []
+    eb = error_blocks(fn)
+    for (b, s, fm, line) in edge_forms(fn):
+        if fm.rel == "==" and fm.lin.k == 0 and len(fm.lin.terms) == 1 and mentions(list(fm.lin.terms)[0], "waiting_tx_count"):
+            others = [x for x in fn.succ(b) if x != s]
+            if others and all(x in eb or _leads_to_error_only(fn, x) for x in others):
+                out.append((b, s))
+    return out
+
+
+def validated_at(F, em, validated, body, bb, depth=0):
+    """is block bb of `body` only reachable after a validator: a dominating validator call with propagated error
+    (validate_next_tx / require_no_waiting_txes / an engine method already shown to validate), a dominating inline
+    `waiting_tx_count != 0 => Err` guard, or -- for closures -- the same at the place the closure is handed over"""
+    from terms import edge_dominates
+    for c in body.calls():
+        if body.is_cleanup(c.bb) or c.bb == bb:
+            continue
+        m = c.method or ""
+        is_v = m in VALIDATORS or (validated.get(m) and c.target_id == em.get(m, body).id)
+        if is_v and err_propagated(body, c) and body.dominates(c.bb, bb):
+            return "%s()" % m
+    for e in _waiting_guard_edges(body):
+        if edge_dominates(body, e, bb):
+            return "inline waiting_tx_count guard"
+    if body.kind in ("closure", "coroutine") and depth < 4:
+        parent = F.fns.get(body.j.get("parent"))
+        if parent is not None:
+            for b in range(len(parent.blocks)):
+                t = parent.term(b)
+                if t["k"] == "call" and not parent.is_cleanup(b):
+                    for a in t.get("args", []):
+                        if "l" in a and body.id in parent.local_closures(a["l"]):
+                            r = validated_at(F, em, validated, parent, b, depth + 1)
+                            if r:
+                                return r
+    return None
+
+
 def clause_validate_before_mutate(R, F, CG):
     LM = LockModel(F, CG)
     E = Effects(F, CG, LM)
@@ -67,43 +108,43 @@ def clause_validate_before_mutate(R, F, CG):
             return writes(effs)
         return False
 
-    validated = {}     # engine method -> True if all its direct mutation sites are dominated by a validator
+    validated = {}     # engine method -> True if all its direct mutation sites are validated
     order = sorted(em)
-    # iterate to a fixpoint so that calling a validated engine method counts as validation
+
+    def sites_of(name):
+        fn = em[name]
+        out = []
+        for body in [fn] + F.descendants(fn.id):
+            for c in body.calls():
+                if not body.is_cleanup(c.bb) and is_mutation_site(body, c):
+                    out.append((body, c))
+        return out
     for _ in range(4):
         for name in order:
-            fn = em[name]
-            sites = [c for c in fn.calls() if not fn.is_cleanup(c.bb) and is_mutation_site(fn, c)]
-            if not sites:
+            ss = sites_of(name)
+            if not ss:
                 continue
-            vcalls = [c for c in fn.calls() if not fn.is_cleanup(c.bb) and ((c.method or "") in VALIDATORS or
-                      ((c.method or "") in validated and validated.get(c.method) and c.target_id == em.get(c.method, fn).id))
-                      and err_propagated(fn, c)]
-            ok = all(any(fn.dominates(v.bb, s.bb) and v.bb != s.bb for v in vcalls) for s in sites)
-            validated[name] = ok
+            validated[name] = all(validated_at(F, em, validated, body, c.bb) for body, c in ss)
     n = 0
     for name in order:
-        fn = em[name]
-        sites = [c for c in fn.calls() if not fn.is_cleanup(c.bb) and is_mutation_site(fn, c)]
-        if not sites:
+        ss = sites_of(name)
+        if not ss:
             continue
         if name in ESCAPE_HATCH:
             R.ok(1, sample={"rule": "DOM-before", "entry": name, "exception": ESCAPE_HATCH[name]})
             continue
-        vcalls = [c for c in fn.calls() if not fn.is_cleanup(c.bb) and ((c.method or "") in VALIDATORS or validated.get(c.method or ""))
-                  and err_propagated(fn, c)]
-        for s in sites:
+        for body, s in ss:
             n += 1
-            dom = [v for v in vcalls if fn.dominates(v.bb, s.bb) and v.bb != s.bb]
+            why = validated_at(F, em, validated, body, s.bb)
             what = []
             for t in sorted(CG.site_targets(s)):
                 for cc in F.fns[t].calls():
                     if (cc.method or "").startswith(("set_", "remove_", "commit", "reorg", "clear")):
                         what.append(cc.method)
-            R.ob(bool(dom), "DOM-before", s.where(), "DOM-before|%s|%s" % (name, ",".join(sorted(set(what))[:3]) or "write"),
-                 "engine.%s reaches a state mutation (%s) that is not dominated by a validator (%s) whose error is propagated: "
-                 "a call that should be refused changes state" % (name, ", ".join(sorted(set(what))[:4]) or "write_fn", " / ".join(VALIDATORS)),
-                 sample={"rule": "DOM-before", "entry": name, "mutation": sorted(set(what))[:3], "validator": [v.method for v in dom][:2]})
+            R.ob(bool(why), "DOM-before", s.where(), "DOM-before|%s|%s" % (name, ",".join(sorted(set(what))[:3]) or "write"),
+                 "engine.%s reaches a state mutation (%s) that is not dominated by a validator (%s, or an inline waiting-count guard) whose "
+                 "error is propagated: a call that should be refused changes state" % (name, ", ".join(sorted(set(what))[:4]) or "write_fn", " / ".join(VALIDATORS)),
+                 sample={"rule": "DOM-before", "entry": name, "mutation": sorted(set(what))[:3], "validator": why})
     R.floor("engine_mutation_sites", n, 8)
     # validators are effect free
     for v in VALIDATORS:
